@@ -109,7 +109,11 @@ class QTensorLinear(torch.autograd.Function):
                 bits=4,
                 group_size=other._group_size,
             )
-        elif isinstance(other, QBytesTensor):
+        elif isinstance(other, QBytesTensor) and other.axis in (None, 0):
+            # The scales can only be factored out of the contraction when they do not vary along the contracted
+            # dimension: one per output feature (or one) for the weights, a single one for the inputs
+            if isinstance(input, QBytesTensor) and input.axis is not None:
+                input = input.dequantize()
             if isinstance(input, QBytesTensor):
                 output = torch.ops.quanto.qbytes_mm(input._data, other._data, input._scale * other._scale)
             else:
